@@ -144,7 +144,17 @@ def r1(ctx):
     ok = len(aa) == 1 and len(tb) == 1 and all(b.dominated_by_block(x, aa[0]) and b.dominated_by_block(x, tb[0]) for x in okrets) and bool(okrets)
     ctx.inst(R, "step:elapsed-and-network-once", ok, b.span, "Sim::elapsed and the topology clock advance once on every Ok path" if ok else
              "Sim::elapsed += tick / Topology::tick_by do not happen exactly once on every Ok path of step")
-    ctx.floor(R, 5)
+    # ... and only after every host was ticked: during the step Sim::elapsed is the time at the *start* of the step (what the hosts'
+    # clocks, and the filesystem clock derived next to them, are measured against); a step that returns a host's error early has
+    # not advanced it
+    ticks = [bb for fb in [b] for bb, t in fb.calls(re.compile(r"^turmoil::world::World::tick$|^turmoil::rt::Rt::tick$"))]
+    for v in loops:
+        ticks += [v.ib] if getattr(v, "ib", None) is not None else []
+    late = bool(aa) and not any(x in b.reachable(a) and x != a for a in aa for x in ticks)
+    ctx.inst(R, "step:elapsed-advances-after-the-hosts", late, b.term(aa[0])["s"] if aa else b.span, "Sim::elapsed is advanced after the last host tick of the step" if late else
+             "Sim::step advances Sim::elapsed before the hosts are ticked: during the step everything computed from it (the filesystem / io_uring clock handed to the "
+             "tick) is one tick ahead of the hosts' own clocks, and a step that fails early has already counted its tick")
+    ctx.floor(R, 6)
 
 
 def json_key(p):
